@@ -89,6 +89,9 @@ static Out c_side(const xv_req *r, xrl_error **e) {
 
 static Out cpp_side(const xv_req *r) {
   const char *s = S(r->s);
+  /* string arguments reach the wrappers as std::string or, for NULL and for every third request, as a plain C string */
+  if (r->fn < XV_NFN && strchr(XV_FN[r->fn].sig, 's') && (s == NULL || (r->i[5] + r->fn + (int)(r->d[0] * 8)) % 3 == 0))
+    return guarded([&](Out &o) { if (!cpp_numeric_cstr(r->fn, r->i, r->d, s, o)) { if (s == NULL || !cpp_numeric(r->fn, r->i, r->d, s, o)) o.kind = 8; } });
   if (r->fn < XV_NFN) return guarded([&](Out &o) { if (!cpp_numeric(r->fn, r->i, r->d, s, o)) o.kind = 9; });
   std::string str = s ? s : "";
   switch (r->fn) {
@@ -243,11 +246,12 @@ int main(int argc, char **argv) {
   for (long k = 0; k < n; k++) {
     const xv_req *r = &rq[k];
     if (r->fn < XV_NFN && !CPP_WRAPPED[r->fn]) { skipped++; continue; }
-    if (S(r->s) == NULL && (r->fn >= XV_NFN ? (r->fn != XS_AtomicNumberToSymbol && r->fn != XS_Atomic_Factors && r->fn != XS_NISTByIndex_summary && r->fn != XS_RadioByIndex_summary && r->fn < 2001) : strchr(XV_FN[r->fn].sig, 's') != NULL)) { skipped++; continue; }   /* std::string cannot be NULL */
+    if (S(r->s) == NULL && r->fn >= XV_NFN && (r->fn != XS_AtomicNumberToSymbol && r->fn != XS_Atomic_Factors && r->fn != XS_NISTByIndex_summary && r->fn != XS_RadioByIndex_summary && r->fn < 2001)) { skipped++; continue; }   /* the object wrappers take std::string: it cannot be NULL */
     size_t b0 = bal();
     xrl_error *e = NULL; Out c = c_side(r, &e); Out w = cpp_side(r);
     Stat &st = stats[r->fn]; st.calls++;
     std::string fn = fname(r->fn);
+    if (w.kind == 8) { skipped++; if (e) xrl_error_free(e); continue; }      /* no way to hand this wrapper a NULL compound */
     if (w.kind == 9 || c.kind == 9) { V("harness:unhandled:" + fn, "request not handled", r); if (e) xrl_error_free(e); continue; }
     if (w.kind < 5) { if (w.kind == 0) st.values++; st.exc[w.kind]++; }
     if (!e) {
